@@ -208,7 +208,10 @@ class ExchangeDouble:
             rep = {"status": status, "instruction": {"betId": ins["betId"], "newPersistenceType": ins["newPersistenceType"]}}
             if status == "SUCCESS":
                 b = self.bets.get(ins["betId"])
-                if b is None or b["status"] != "EXECUTABLE":
+                if b is not None and b["order_type"] != "LIMIT":
+                    rep["status"] = "FAILURE"
+                    rep["errorCode"] = "BET_ACTION_ERROR"
+                elif b is None or b["status"] != "EXECUTABLE":
                     rep["status"] = "FAILURE"
                     rep["errorCode"] = "BET_TAKEN_OR_LAPSED"
                 else:
@@ -224,7 +227,11 @@ class ExchangeDouble:
         crep = {"status": c_oc.split(":")[0], "instruction": {"betId": ins["betId"], "sizeReduction": None}}
         prep = {"status": "FAILURE", "errorCode": "CANCELLED_NOT_PLACED"}
         cancelled = None
-        if crep["status"] == "SUCCESS":
+        if crep["status"] == "SUCCESS" and old is not None and old["order_type"] != "LIMIT":
+            # starting-price bets cannot be re-priced: the exchange refuses the instruction
+            crep["status"] = "FAILURE"
+            crep["errorCode"] = "BET_ACTION_ERROR"
+        elif crep["status"] == "SUCCESS":
             cancelled = self.cancel(ins["betId"]) if old is not None else None
             if cancelled is None:
                 crep["status"] = "FAILURE"
@@ -252,6 +259,8 @@ class ExchangeDouble:
         """one CurrentOrders document per market holding every bet of that market"""
         by = collections.OrderedDict()
         for b in self.bets.values():
+            if b.get("settled"):      # a closed market's bets are settled: they leave the order stream
+                continue
             if markets is None or b["market_id"] in markets:
                 by.setdefault(b["market_id"], []).append(self._current(b))
         return {m: {"currentOrders": lst, "moreAvailable": False} for m, lst in by.items()}
@@ -334,6 +343,7 @@ class LiveRun:
         self.patches = Patches()
         self.shadow_tx = {"tot": 0, "totf": 0}
         self.pkg_calls = collections.Counter()
+        self.only = None           # strategy names the (restarted) instance runs; None = all
         self.offset = 0.0          # seconds the clock seen by flumine.markets.market runs ahead (op "advance")
         self.closed_since = {}     # driver's own ledger: market -> clock reading at its latest closure
         self.boot()
@@ -348,7 +358,7 @@ class LiveRun:
         self.fl.betfair_execution._thread_pool.shutdown(wait=False)
         self.fl.betfair_execution._thread_pool = self.pool
         self.strategies = []
-        for s in self.scn["strategies"]:
+        for s in [x for x in self.scn["strategies"] if self.only is None or x["name"] in self.only]:
             st = LiveStrategy(self, market_filter={"marketIds": ["1.1", "1.2"]}, name=s["name"],
                               max_order_exposure=s.get("max_order_exposure"), max_selection_exposure=s.get("max_selection_exposure"),
                               max_trade_count=s.get("max_trade_count", 10 ** 6), max_live_trade_count=s.get("max_live_trade_count", 1000),
@@ -438,7 +448,7 @@ class LiveRun:
         ctl = [c for c in self.client.trading_controls if c.NAME == "MAX_TRANSACTION_COUNT"][0]
         st["tx"] = {"double": {"tot": ctl.transaction_count, "totf": ctl.failed_transaction_count}}
         st["xb"] = {bid: {"status": b["status"], "m": pence(b["matched"]), "rem": pence(b["remaining"]), "can": pence(b["cancelled"]), "lap": pence(b["lapsed"]), "ref": b["ref"] or "",
-                          "price": pence(b["price"]), "size": pence(b["size"]), "mid": b["market_id"], "selk": str(b["selection_id"]), "side": b["side"],
+                          "price": pence(b["price"]), "size": pence(b["size"]), "settled": bool(b.get("settled")), "mid": b["market_id"], "selk": str(b["selection_id"]), "side": b["side"],
                           "sref": "KNOWN" if (b["ref"] or "")[:13] in self.fl.strategies.hashes else "UNKNOWN"}
                     for bid, b in self.x.bets.items()}
         st["live_orders_flag"] = bool(self.fl.markets.live_orders)
@@ -497,6 +507,7 @@ class LiveRun:
             self.step("advance", seconds=int(s["seconds"]), now=int(self.offset))
         elif op == "book":
             self.closed_since.pop(s.get("mid", "1.1"), None)      # data for a closed market re-opens it
+            self._unsettle(s.get("mid", "1.1"))
             mb = self.book(s.get("mid", "1.1"), s.get("status", "OPEN"), s.get("version", 1), k=s.get("k", 0))
             self.raise_in = {tuple(x): True for x in s.get("raise", [])}
             try:
@@ -506,6 +517,9 @@ class LiveRun:
             self.raise_in = {}
             self.step("book", mid=s.get("mid", "1.1"), status=s.get("status", "OPEN"))
         elif op == "close":
+            for b in self.x.bets.values():
+                if b["market_id"] == s.get("mid", "1.1"):
+                    b["settled"] = True
             mb = self.book(s.get("mid", "1.1"), "CLOSED", s.get("version", 9))
             self.fl._process_market_books(fevents.MarketBookEvent([mb]))
             n0 = len(self.closed_calls)
@@ -536,6 +550,11 @@ class LiveRun:
             pre_known = mid in self.fl.markets.markets
             if kind != "def_closed":
                 self.closed_since.pop(mid, None)
+                self._unsettle(mid)
+            else:
+                for b in self.x.bets.values():
+                    if b["market_id"] == mid:
+                        b["settled"] = True
             n0 = len(self.closed_calls)
             self.fl._process_raw_data(fevents.RawDataEvent((self.stream_id, "clk", int(time.time() * 1000), [datum])))
             closes = 0
@@ -580,8 +599,18 @@ class LiveRun:
                 latest = snap is self.snaps[-1] and not self.dirty_since_snap
                 self.process_snapshot(snap, s.get("raise"))
                 self.step("proc", i=self.snaps.index(snap), latest=bool(latest), quiescent=bool(latest and not self.pool.thunks))
+        elif op == "foreign":
+            # a bet on the account that no strategy of this program placed (another program, or a strategy that
+            # is no longer configured): it appears in every order-stream image from now on
+            ins = {"selectionId": s.get("sel", 11), "handicap": 0.0, "side": "BACK", "orderType": "LIMIT",
+                   "limitOrder": {"size": 2.0, "price": 2.0, "persistenceType": "LAPSE"}, "customerOrderRef": s.get("ref", "zzzzzzzzzzzzz-1234567890")}
+            self.x.new_bet(s.get("mid", "1.3"), ins, "other")
+            self.dirty_since_snap = True
+            self.step("foreign", mid=s.get("mid", "1.3"))
         elif op == "restart":
             pre = self.exposures()
+            if s.get("strategies") is not None:
+                self.only = list(s["strategies"])
             self.boot()
             self.snaps.append({"data": self.x.snapshot(), "fresh": True, "seq": len(self.snaps)})
             self.dirty_since_snap = False
@@ -591,9 +620,16 @@ class LiveRun:
             # a second, identical snapshot must not adopt anything twice
             if s.get("twice", True):
                 self.process_snapshot(self.snaps[-1], None)
-            self.step("restart", pre=pre, post=self.exposures(), quiescent=True, latest=True)
+            self.step("restart", pre=pre, post=self.exposures(), quiescent=True, latest=True, running=[st.name for st in self.strategies])
         else:
             raise ValueError(op)
+
+    def _unsettle(self, mid):
+        """a market that trades again was not settled after all: its bets are back in the order stream"""
+        for b in self.x.bets.values():
+            if b["market_id"] == mid and b.get("settled"):
+                b["settled"] = False
+                self.dirty_since_snap = True
 
     def bet_of(self, label):
         o = self.orders.get(label)
@@ -609,6 +645,8 @@ class LiveRun:
     def exposures(self):
         out = {}
         for mid, mk in self.fl.markets.markets.items():
+            if mk.closed:       # settled: nothing of it is at the exchange any more
+                continue
             for st in self.fl.strategies:
                 for sel in (11, 12):
                     e = mk.blotter.get_exposures(st, (mid, sel, 0))
